@@ -214,6 +214,140 @@ func vfrRunCase(c map[string]any, defs map[string]map[string]any, out *vfd.Out) 
 	}
 }
 
+// ---- end-to-end: the same calls issued by a real outer program through Psi_M
+//
+// case: {"id","tag","e2e":true,"ro":[bytes of the read-only segment],"rw":[bytes of the read-write segment],
+//        "log":address of the result log inside the read-write segment,
+//        "ops":[{"call","w":[[8]x6],"set":[[addr,[bytes, a multiple of 8]],..]},..]}
+// The program: for every op the guest's stores (`set`), omega7..12 := w, ecalli, then omega7 and omega8 are stored
+// to the log; at the end it halts returning the log.  Entry point 0, gas 10^6, RefineOmegas, an empty machine map.
+
+type vfrAsm struct {
+	code []byte
+	mask []byte
+}
+
+func (a *vfrAsm) ins(b ...byte) {
+	a.code = append(a.code, b...)
+	a.mask = append(a.mask, 1)
+	for i := 1; i < len(b); i++ {
+		a.mask = append(a.mask, 0)
+	}
+}
+
+func (a *vfrAsm) loadImm64(reg int, v uint64) {
+	b := []byte{20, byte(reg)}
+	for i := 0; i < 8; i++ {
+		b = append(b, byte(v>>(8*i)))
+	}
+	a.ins(b...)
+}
+
+// store_u64 [addr] := reg
+func (a *vfrAsm) storeU64(reg int, addr uint32) {
+	a.ins(62, byte(reg), byte(addr), byte(addr>>8), byte(addr>>16), byte(addr>>24))
+}
+
+func vfrNat(x int) []byte {
+	if x < 128 {
+		return []byte{byte(x)}
+	}
+	if x < 1<<14 {
+		return []byte{byte(0x80 | (x >> 8)), byte(x)}
+	}
+	if x < 1<<21 {
+		return []byte{byte(0xc0 | (x >> 16)), byte(x), byte(x >> 8)}
+	}
+	panic("driver: program too long")
+}
+
+func vfrStdBlob(a *vfrAsm, ro, rw []byte) []byte {
+	inner := []byte{0, 0}
+	inner = append(inner, vfrNat(len(a.code))...)
+	inner = append(inner, a.code...)
+	k := make([]byte, (len(a.code)+7)/8)
+	for i, m := range a.mask {
+		if m == 1 {
+			k[i/8] |= 1 << (i % 8)
+		}
+	}
+	inner = append(inner, k...)
+	o, w := len(ro), len(rw)
+	out := []byte{byte(o), byte(o >> 8), byte(o >> 16), byte(w), byte(w >> 8), byte(w >> 16), 0, 0, 0, 0, 0}
+	out = append(out, ro...)
+	out = append(out, rw...)
+	out = append(out, byte(len(inner)), byte(len(inner)>>8), byte(len(inner)>>16), byte(len(inner)>>24))
+	return append(out, inner...)
+}
+
+func vfrRunE2E(c map[string]any, out *vfd.Out) {
+	ro, rw := vfd.Bytes(c["ro"]), vfd.Bytes(c["rw"])
+	logAt := uint32(vfd.I(c["log"]))
+	ops := c["ops"].([]any)
+	a := &vfrAsm{}
+	for i, oj := range ops {
+		op := oj.(map[string]any)
+		if sets, ok := op["set"].([]any); ok {
+			for _, sj := range sets {
+				st := sj.([]any)
+				addr, bs := uint32(vfd.I(st[0])), vfd.Bytes(st[1])
+				for j := 0; j+8 <= len(bs); j += 8 {
+					var v uint64
+					for b := 0; b < 8; b++ {
+						v |= uint64(bs[j+b]) << (8 * b)
+					}
+					a.loadImm64(5, v)
+					a.storeU64(5, addr+uint32(j))
+				}
+			}
+		}
+		for r, w := range op["w"].([]any) {
+			a.loadImm64(7+r, vfd.FromU64LE(w))
+		}
+		a.ins(10, byte(vfrOps[vfd.S(op["call"])]))
+		a.storeU64(7, logAt+uint32(16*i))
+		a.storeU64(8, logAt+uint32(16*i)+8)
+	}
+	a.loadImm64(7, uint64(logAt))
+	a.loadImm64(8, uint64(16*len(ops)))
+	a.ins(50, 0) // jump_ind r0 + 0: halt
+	blob := vfrStdBlob(a, ro, rw)
+	// the memory the program starts with, as the node builds it
+	image := map[string]any{"acc": [][]any{}, "data": [][]int{}}
+	if _, _, mem, er := SingleInitializer(StandardCodeFormat(append([]byte(nil), blob...)), Argument{}); er == ExitContinue {
+		acc, data := vfrSnapMem(&mem)
+		image = map[string]any{"acc": acc, "data": data}
+	}
+	res := map[string]any{"kind": "none", "out": []int{}, "m": []vfrMach{}, "used": 0}
+	var r Psi_M_ReturnType
+	panicked, msg := vfd.Guard(func() {
+		r = Psi_M(StandardCodeFormat(blob), 0, 1000000, Argument{}, RefineOmegas, HostCallArgs{RefineArgs: RefineArgs{IntegratedPVMMap: IntegratedPVMMap{}}})
+	})
+	if panicked {
+		res["kind"], res["gopanic"] = "gopanic", msg
+	} else {
+		switch v := r.ReasonOrBytes.(type) {
+		case []byte:
+			res["kind"], res["out"] = "halt", vfd.B(v)
+		case nil:
+			res["kind"] = "halt"
+		case ExitReasonType:
+			if v == OUT_OF_GAS {
+				res["kind"] = "oog"
+			} else {
+				res["kind"] = "panic"
+			}
+		default:
+			res["kind"] = "panic"
+		}
+		var regs Registers
+		st := vfrSnap(&regs, 0, nil, r.Addition.IntegratedPVMMap)
+		res["m"] = st.M
+		res["used"] = int(min(uint64(r.Gas), 1<<30))
+	}
+	out.Emit(map[string]any{"k": "e2e", "id": c["id"], "tag": c["tag"], "ops": ops, "image": image, "res": res})
+}
+
 func TestRefine(t *testing.T) {
 	cases := vfd.ReadCases(vfd.Env("VF_CASES", "cases.ndjson"))
 	out := vfd.NewOut(vfd.Env("VF_OUT", "trace.ndjson"))
@@ -222,6 +356,10 @@ func TestRefine(t *testing.T) {
 	for _, c := range cases {
 		if name, ok := c["def"].(string); ok {
 			defs[name] = c["outer"].(map[string]any)
+			continue
+		}
+		if e, ok := c["e2e"].(bool); ok && e {
+			vfrRunE2E(c, out)
 			continue
 		}
 		vfrRunCase(c, defs, out)
